@@ -119,7 +119,15 @@ def asm_block_rules(run):
         run.violation(R, R + "|strictness-follows-outer", g.loc(), "mechanism not found: inner_ctx.is_last_iteration")
     # the text matched is the substituted text; the names usable in it are the hygienised locals plus the block's labels
     mi = _calls(g, "matcher::match_instr")
-    oks = len(mi) == 1 and "eval_asm::perform_substitutions(" in deep(g, mi[0][1]["args"][3], 4) if mi else False
+    def _substituted(d):
+        if "eval_asm::perform_substitutions(" in d:
+            return True
+        # ... through a helper of the module that performs the substitutions and hands the line back
+        for h in run.prog.real_fns():
+            if h.kind != "Closure" and h.id.startswith("asm::resolver::eval_asm::") and h.id != g.id and (h.id.rsplit("::", 1)[-1] + "(") in d and _calls(h, "eval_asm::perform_substitutions"):
+                return True
+        return False
+    oks = len(mi) == 1 and _substituted(deep(g, mi[0][1]["args"][3], 8)) if mi else False
     hy = _calls(g, "EvalContext::hygienize_locals_for_asm_subst")
     oks = oks and len(hy) == 1 and deep(g, hy[0][1]["args"][0]) == "P6.eval_ctx"
     if oks and re_:
@@ -573,6 +581,16 @@ def substituted_line_trimmed(run, R="ASM"):
     if f is None:
         return
     sites = [(bi, t) for bi, t in f.calls() if (t.get("resolved") or "") == "asm::matcher::match_instr"]
-    ok = bool(sites) and all(re.search(r"str::trim_end(_matches)?\(|str::trim\(", deep(f, t["args"][-1], 8)) for bi, t in sites)
+    def trimmed(t):
+        d = deep(f, t["args"][-1], 8)
+        if re.search(r"str::trim_end(_matches)?\(|str::trim\(", d):
+            return True
+        # the line is prepared by a helper of the module that trims what it hands back
+        for h in run.prog.real_fns():
+            if h.kind != "Closure" and h.id.startswith("asm::resolver::eval_asm::") and h.id != f.id and (h.id.rsplit("::", 1)[-1] + "(") in d:
+                if any(re.search(r"<impl str>::(trim_end|trim_end_matches|trim)(::<.*)?$", t2.get("callee") or "") for _, t2 in h.calls()):
+                    return True
+        return False
+    ok = bool(sites) and all(trimmed(t) for bi, t in sites)
     run.check(ok, R, R + "|subst|line-trimmed", f.loc(), "the substituted line is handed to the matcher without trailing blanks",
               "eval_asm::resolve_once hands the substituted line to the matcher as it is: with an empty argument at its end (`wrap a` for `wrap {reg} {p} => asm { abs {reg} {p} }`) the line ends in a blank and finds no match, although `abs a` written in place assembles")
